@@ -33,18 +33,18 @@ func heapAllocs() uint64 {
 
 // Runner delivers sessions to one environment and applies the oracle.
 type Runner struct {
-	c       *core.Case
-	run     *core.Run
-	e       *Env
-	envDesc string
-	nmsg    int
+	c        *core.Case
+	run      *core.Run
+	e        *Env
+	envDesc  string
+	nmsg     int
 	outbound bool          // next peer is an outbound one (we dialled it)
-	settle  time.Duration // extra wait at the end of a session for asynchronous event loops
-	a0      uint64
-	recent  [][]wmsg // the last sessions (witness of delayed effects)
-	broken  bool // the environment can no longer be used (dead node, hung call, leaked mutex)
-	nsample int
-	calib   bool // ... only because of a calibration limit of the harness (not a finding)
+	settle   time.Duration // extra wait at the end of a session for asynchronous event loops
+	a0       uint64
+	recent   [][]wmsg // the last sessions (witness of delayed effects)
+	broken   bool     // the environment can no longer be used (dead node, hung call, leaked mutex)
+	nsample  int
+	calib    bool // ... only because of a calibration limit of the harness (not a finding)
 }
 
 type wmsg struct {
